@@ -161,8 +161,8 @@ def heads(itf, send_time, v, out, pos='elem'):
         if bundle_shaped:
             try:
                 out.append(str(int(itf._get_timetag(send_time, v[0]))))
-            except Exception as e:
-                out.append('0')
+            except Exception as e:          # e.g. int(inf): the latency has no time tag at all
+                out.append('raise:' + type(e).__name__)
         for k, x in enumerate(v):
             child = 'elem' if (bundle_shaped and k >= 1) else 'arg'
             if bundle_shaped and pos == 'arg' and k == 1 and isinstance(x, tuple):
@@ -295,7 +295,7 @@ def make_addr(local=True):
 
     def run(kind, args, f):
         n0 = len(itf.sent)
-        rec = {'method': kind, 'args': enc_tree(list(args))}
+        rec = {'method': kind, 'args': enc_tree(list(args)), 'st': main.current_tt._seconds}
         calls.append(rec)
         tags = []
         heads(itf, main.current_tt._seconds, list(args), tags)
